@@ -149,6 +149,10 @@ type Raft struct {
 	// it does without holding the lock.
 	applying bool
 
+	// Indicates that a snapshot of the state machine is being taken, which is done
+	// without holding the lock. No operation is applied in the meantime.
+	snapshotting bool
+
 	// Indicates that the state of this node has to be restored before it is started:
 	// it has been stopped, which closes its log, or an attempt to restore it failed.
 	needsRestore bool
@@ -1578,6 +1582,16 @@ func (r *Raft) snapshotLoop() {
 // only be taken if there is new state since the previous snapshot and there
 // is not a pending configuration change.
 func (r *Raft) takeSnapshot() {
+	// Wait for the operation that is being applied to the state machine at the moment, if
+	// any: it is applied without holding the lock and the applied index is only advanced
+	// afterwards, so the snapshot could contain it without saying so.
+	for r.applying && r.state != Shutdown {
+		r.applyCond.Wait()
+	}
+	if r.state == Shutdown {
+		return
+	}
+
 	// There is nothing new to snapshot.
 	if r.lastApplied <= r.lastIncludedIndex {
 		return
@@ -1612,11 +1626,14 @@ func (r *Raft) takeSnapshot() {
 
 	// Take a snapshot of the state machine.
 	// It's best that the lock is not held here since this might take a while.
+	r.snapshotting = true
 	r.mu.Unlock()
 	if err := r.fsm.Snapshot(snapshot); err != nil {
 		r.logger.Fatalf("failed to take snapshot of state machine: error = %v", err)
 	}
 	r.mu.Lock()
+	r.snapshotting = false
+	r.applyCond.Broadcast()
 
 	// It's possible a snapshot was installed and the log was compacted while the lock was released.
 	// This snapshot is then out of date and must not become the most recent one.
@@ -1829,6 +1846,13 @@ func (r *Raft) applyLoop() {
 		// Scan the log starting at the entry following the last applied entry
 		// and apply any entries that have been committed.
 		for r.lastApplied < r.commitIndex && r.state != Shutdown {
+			// Nothing is applied while a snapshot of the state machine is being taken,
+			// otherwise the snapshot could contain more than its last included index says.
+			if r.snapshotting {
+				r.applyCond.Wait()
+				continue
+			}
+
 			entry, err := r.log.GetEntry(r.lastApplied + 1)
 			if err != nil {
 				r.logger.Fatalf("failed to get entry from log: error = %v", err)
